@@ -29,6 +29,9 @@ type c16Op struct {
 	Ext     int    `json:"ext,omitempty"`
 	Variant string `json:"variant,omitempty"` // text | bad | ext | inc (set) ; open | read (fault)
 	Dep     int    `json:"dep,omitempty"`     // target of extends/include
+	// Self (parse): the source is handed to Set.Parse a second time, under the very name of the template it
+	// extends / imports (an override of the stored template): same outcome as under any other name
+	Self bool `json:"self,omitempty"`
 }
 
 type c16Case struct {
@@ -156,6 +159,7 @@ func genC16(t *rapid.T) c16Case {
 			op.Op = "parse"
 			op.Variant = rapid.SampledFrom([]string{"ext", "import", "text"}).Draw(t, "parsevariant")
 			op.Dep = rapid.IntRange(0, len(c16Names)-1).Draw(t, "dep")
+			op.Self = op.Variant != "text" && rapid.IntRange(0, 2).Draw(t, "parseUnderOwnName") == 0
 		case k == 14:
 			op.Op = "exec"
 		default:
@@ -381,6 +385,22 @@ func judgeC16(c c16Case) (v core.Verdict) {
 			if puts() > 0 {
 				v.Failf("%s: Set.Parse stored something in the cache: %v", hist(i), trace)
 				return
+			}
+			if op.Self {
+				selfName := c16Names[op.Dep] + c.Exts[0]
+				if p, ok := m.currentPath(op.Dep); ok {
+					selfName = p
+				}
+				_, so := jetrun.Parse(s, selfName, src)
+				if so.Panicked || (so.Err == nil) != (o.Err == nil) {
+					v.Failf("%s: Set.Parse of %q under the name /parsed.jet gave err=%v, under the name %s (the template it refers to) %s", hist(i), src, o.Err, selfName, so)
+					return
+				}
+				if puts() > 0 {
+					v.Failf("%s: Set.Parse stored something in the cache: %v", hist(i), trace)
+					return
+				}
+				v.Label("parse-under-the-name-of-the-template-it-extends")
 			}
 			if !c.Dev && op.Variant != "text" && m.status[op.Dep] == stCached {
 				// what Parse extends / imports is looked up like any other name: a cached template is used as it is
